@@ -37,13 +37,18 @@ def call(run, fn, *a, raises=(), **kw):
     """Call repository code; exceptions of the classes in `raises` are outcomes; any other
     exception raised BY REPOSITORY CODE is reported as an `unexpected-exception` obligation
     failure on this path; exceptions from the shim make the path undecided."""
+    GAP = (NameError, AttributeError, TypeError, NotImplementedError, RecursionError)
     try:
         return Outcome(value=fn(*a, **kw))
     except (engine.EndPath, Undecided):
         raise
     except raises as e:
+        # a broad class in `raises` (Exception) must not turn a modelling gap into behaviour of the code: a gap
+        # exception is an outcome only if the contract names that very class
+        if isinstance(e, GAP) and not any(isinstance(e, r) and issubclass(r, GAP) for r in (raises if isinstance(raises, tuple) else (raises,))):
+            raise Undecided("outside the modelled subset: %s: %s" % (type(e).__name__, str(e)[:200]))
         return Outcome(exc=e)
-    except (NameError, AttributeError, TypeError, NotImplementedError, RecursionError) as e:
+    except GAP as e:
         # overwhelmingly a construct outside the modelled subset (a name the harness does not
         # provide, an attribute/keyword a shim lacks): undecided, never a violation
         raise Undecided("outside the modelled subset: %s: %s" % (type(e).__name__, str(e)[:200]))
@@ -117,6 +122,32 @@ def module_level_binding(modname, name):
     return None
 
 
+SAFE_STDLIB = ("itertools", "functools", "operator", "collections", "enum", "numbers", "abc", "contextlib")
+
+
+def module_level_import(modname, name):
+    """The object a module-level `import x` / `from x import y [as name]` binds to `name`, for pure standard-library
+    helper modules only (itertools, functools, operator, ...): they have no symbolic counterpart and no state."""
+    import ast
+    import importlib
+    for n in frontend.module(modname).tree.body:
+        if isinstance(n, ast.ImportFrom) and n.module and n.level == 0 and n.module.split(".")[0] in SAFE_STDLIB:
+            for a in n.names:
+                if (a.asname or a.name) == name:
+                    try:
+                        return getattr(importlib.import_module(n.module), a.name)
+                    except Exception:
+                        return None
+        elif isinstance(n, ast.Import):
+            for a in n.names:
+                if (a.asname or a.name.split(".")[0]) == name and a.name.split(".")[0] in SAFE_STDLIB:
+                    try:
+                        return importlib.import_module(a.name.split(".")[0] if not a.asname else a.name)
+                    except Exception:
+                        return None
+    return None
+
+
 def free_names(modname, qualname):
     import ast
     import builtins
@@ -170,6 +201,9 @@ def define(ctx, ns, modname, qualname, loop_specs=None, extra=None, label=None):
                 continue
             b = module_level_binding(modname, nm)
             if b is None:
+                imp = module_level_import(modname, nm)
+                if imp is not None:
+                    ns[nm] = imp
                 continue
             if b[0] in ("function", "class"):
                 define(ctx, ns, modname, nm)
